@@ -304,7 +304,10 @@ def build_program_flow(cfg, seed):
     if pre == "logit":
         parts.append(T.Logit())
     elif pre == "cauchycdfinv":
-        parts.append(CauchyCDFInverse())
+        # also with the constructor's location / scale / features arguments (ignored by the pinned tree; whatever a class does with
+        # accepted arguments, the flow must stay normalised)
+        parts.append(CauchyCDFInverse(location=[3.0, -2.0][int(seed) % 4 // 2], scale=[5.0, 0.3][int(seed) % 4 // 2], features=D)
+                     if int(seed) % 2 else CauchyCDFInverse())
     elif pre == "log":
         parts.append(T.InverseTransform(T.Exp()))
     elif pre == "atanh":
